@@ -135,6 +135,20 @@ theorem unexpected_surfaces (op : Op) (schedule : List Nat) :
   · intro e he
     rw [he] at ha; exact ha
 
+/-- The full termination statement of C08 on the model: whenever no task is outstanding any more, the
+    overall result is there (not pending) — for every operation and every schedule. NOT proved here
+    (needs the counter invariant `done = #finished slots < target` lifted from `GState` to gather nodes
+    inside trees, and `tasks(tree) ⊆ queue`); the controlled-scheduler oracle checks it on every run
+    (`never-completes`), and `always_terminates_partial` (Props/C08.lean) proves it for the
+    `gather_futures` machine itself. -/
+def AlwaysTerminatesFull : Prop :=
+  ∀ (op : Op) (schedule : List Nat),
+    match execute op {} with
+    | (.exc _, _) => True
+    | (.ok top, s) =>
+      (runSched top s [] schedule).st.queue = [] →
+      (runSched top s [] schedule).top.finished = true
+
 /-- non-vacuity: `{ a: deferred→[exc] b: deferred→1 }`, `b` completes first, then `a` — the result fails;
     and with `a` fine the data is the blocking data although `b` completed first. -/
 example : (match (runAsync ⟨.query, .cons "a" .deferred .exc (.cons "b" .deferred (.ok (.leaf 1)) .nil)⟩ [1, 0]).outcome with
